@@ -245,11 +245,20 @@ def run(R):
     # HIT: returns the stored task unless running; the running path returns a fresh task
     rets = [n for n in cfg.nodes if n.kind == "stmt" and isinstance(n.ast, ast.Return) and n.ast.value is not None]
 
+    def running_read(e):
+        """`task.running` or `getattr(task, "running", False)` for a looked-up task -> 'attr' / 'getattr'"""
+        if isinstance(e, ast.Attribute) and e.attr == "running" and isinstance(e.value, ast.Name) and e.value.id in looked:
+            return "attr"
+        if isinstance(e, ast.Call) and q.call_name(e) == "getattr" and len(e.args) == 3 and isinstance(e.args[0], ast.Name) and e.args[0].id in looked \
+                and isinstance(e.args[1], ast.Constant) and e.args[1].value == "running" and isinstance(e.args[2], ast.Constant) and e.args[2].value is False:
+            return "getattr"
+        return None
+
     # (the flag may be read into a local first: `is_executing = task.running`)
     run_locals = set()
     for nm_ in set(t_.id for a_ in ast.walk(asy.node) if isinstance(a_, ast.Assign) for t_ in a_.targets if isinstance(t_, ast.Name)):
         vals_ = common.assigned_values(asy.node, nm_)
-        if vals_ and all(k_ == "expr" and isinstance(v_, ast.Attribute) and v_.attr == "running" and isinstance(v_.value, ast.Name) and v_.value.id in looked for k_, v_ in vals_):
+        if vals_ and all(k_ == "expr" and running_read(v_) for k_, v_ in vals_):
             run_locals.add(nm_)
 
     def running(nd, want):
@@ -258,11 +267,47 @@ def run(R):
         k, s, pos = q.atom_test(nd.ast)
         if k == "truth" and isinstance(s, str) and ((s.endswith(".running") and s.split(".")[0] in looked) or s in run_locals):
             return ("T" if pos else "F") if want else ("F" if pos else "T")
+        e_, pos_ = nd.ast, True
+        while isinstance(e_, ast.UnaryOp) and isinstance(e_.op, ast.Not):
+            e_, pos_ = e_.operand, not pos_
+        if running_read(e_) == "getattr":
+            return ("T" if pos_ else "F") if want else ("F" if pos_ else "T")
         return None
     rtests = [n for n in cfg.nodes if running(n, True) is not None]
     R.check(bool(rtests), "C12.HIT", asy.qualname + ":running-test", site,
             "the hit path tests whether the stored task is currently running (synchronous self-recursion)",
             "the hit path no longer distinguishes a task that is currently running")
+    # what the table holds is whatever the wrapped function's .asynq() returned: a task for an @asynq() function, but any future for an
+    # @async_proxy() one (deduplicate() takes both: it only needs .asynq and task_cls).  `running` is a field of AsyncTask alone
+    direct = [x for x in ast.walk(asy.node) if running_read(x) == "attr"]
+    declared = "running" in R.repo.cls("futures.FutureBase").fields()
+    R.check(not direct or declared, "C12.HIT", asy.qualname + ":any-future", R.site(asy, direct[0]) if direct else site,
+            "the running flag of a stored entry is read in a way that is defined for every future (getattr with a False default)",
+            "the hit path reads `%s` from the stored entry, but the entry is whatever the wrapped function returned: for an @async_proxy() function a batch item "
+            "or another plain future, which has no such field - the second call with a key that is still in flight raises AttributeError instead of joining it"
+            % (q.src(direct[0]) if direct else ""))
+    # ... and a future that is complete when it is handed out is not registered: its on_computed is not raised any more, so the entry
+    # would never be removed and "once it completes, the next call runs the body again" fails for good
+    made = set()
+    for st_ in stores:
+        if isinstance(st_.ast.value, ast.Name):
+            made.add(st_.ast.value.id)
+
+    def incomplete(nd):
+        if nd.kind != "test":
+            return None
+        e_, pos_ = nd.ast, True
+        while isinstance(e_, ast.UnaryOp) and isinstance(e_.op, ast.Not):
+            e_, pos_ = e_.operand, not pos_
+        if isinstance(e_, ast.Call) and isinstance(e_.func, ast.Attribute) and e_.func.attr == "is_computed" and isinstance(e_.func.value, ast.Name) and e_.func.value.id in made:
+            return "F" if pos_ else "T"
+        return None
+    pc_ = kit.path_avoiding_guard(cfg, stores, incomplete, N) if stores else None
+    R.check(pc_ is None, "C12.HIT", asy.qualname + ":complete-not-registered", R.site(asy, stores[0].ast) if stores else site,
+            "an entry is stored only for a future that is not complete yet",
+            "a future that is complete when the wrapped function hands it out (an @async_proxy() function answering from a local cache with a ConstFuture) is stored in "
+            "the in-flight table; the clean-up subscribes to an on_computed that is not raised any more, so the entry stays for ever: every later call with that key "
+            "gets the stale future (or fails on it) and the body never runs again", cfg.fmt_path(pc_) if pc_ else None)
     for t in rtests:
         # not running -> returns the looked-up task
         starts = [e.dst for e in cfg.out_edges(t.id, N) if e.label == running(t, False)]
@@ -298,6 +343,15 @@ def run(R):
           and [q.src(a) for a in n.value.args] == ["args", "kwargs"]]
     pops = [c for c in q.calls(di.node) if q.call_name(c) == "self.tasks.pop"]
     okd = len(dk) == 1 and len(pops) == 1 and isinstance(dk[0].targets[0], ast.Name) and q.src(pops[0].args[0]) == dk[0].targets[0].id and len(pops[0].args) == 2
+    dcfg_ = cfg_of(di)
+    pop_nodes = [n for n, c in kit.call_sites(di, lambda c: q.call_name(c) == "self.tasks.pop")]
+    others = [x for x in q.scope_nodes(di.node) if (isinstance(x, ast.Delete) and any("self.tasks" in q.src(t) for t in x.targets))
+              or (isinstance(x, ast.Call) and q.call_name(x) in ("self.tasks.clear", "self.tasks.popitem"))]
+    pskip = dcfg_.find_path([dcfg_.entry], [dcfg_.exit], N, cut_nodes=pop_nodes) if pop_nodes else None
+    R.check(not others and pskip is None, "C12.DIRTY", di.qualname + ":only-its-key", R.site(di, others[0] if others else None),
+            "dirty() removes the entry of its own key on every path and no other entry",
+            "dirty() %s: calls with other keys that are still in flight lose their entries - the next caller with such a key gets a second task and the body "
+            "runs again while the first is still running" % ("removes other entries of the table (`%s`)" % q.src(others[0])[:50] if others else "can return without removing its key"))
     R.check(okd, "C12.DIRTY", di.qualname, R.site(di), "dirty() pops the key built by self.cache_key(args, kwargs), tolerating absence",
             "dirty() does not remove the key that asynq() would build for the same arguments")
     # table is shared by design (class attribute) and thread-keyed: C16 decides the thread component
